@@ -178,7 +178,7 @@ def rule_mem_file_siblings(ctx, R="C14/mem-file-siblings"):
     b = ctx.body(R, MR + "::ModuleReader::build_id_generate_from_text")
     if b is not None:
         o = Origin(b)
-        mins = [o.call_args(x) for x, t in b.calls(lambda c: (c.short or "").split("::")[-1] == "min")]
+        mins = [o.call_args(x) for x, t in b.calls(lambda c: __import__("engine.names").names.stdseg(c.short or "") == "min")]
         ok = any({core(a[0]), core(a[1])} & {("const", 4096, "u64"), ("const", 4096, "usize")} and any(s[0] == "field" and s[2] == "sh_size" for s in walk(tuple(a))) for a in mins)
         ctx.check(ok, R, ("text-hash", "first-page"), b.where(0), "the text hash covers min(4096, sh_size) bytes of the first executable section", "text hash length is %s" % [show(a)[:80] for a in mins])
     b = ctx.body(R, MR + "::build_id_from_bytes")
